@@ -352,3 +352,55 @@ def binary_records(trace_iter, results, jobs_by_id, stats=None):
                     yield {"ev": "done", "ok": bool(ok)}
                     stats["segments"] = stats.get("segments", 0) + 1
                     stats["cached_segments"] = stats.get("cached_segments", 0) + (1 if (cl or cr) else 0)
+
+
+def _wire_el(el):
+    k = el["k"]
+    if k == "I":
+        return {"k": "I", "v": _val(el.get("v")), "ts": 0}
+    if k == "T":
+        return {"k": "T", "v": _val(el.get("v")), "ts": small(el.get("ts", 0))}
+    if k == "W":
+        return {"k": "W", "v": 0, "ts": small(el.get("ts", 0))}
+    return {"k": {"R": "FR", "X": "X", "B": "B"}.get(k, k), "v": 0, "ts": 0}
+
+
+def start_records(trace_iter, results, jobs_by_id, stats=None):
+    """Events for spec/trace/StartConform.tla: for every replica whose Start listens to ONE upstream block
+    (start_setup hook), in program order: messages received on that endpoint and what Start handed on."""
+    stats = stats if stats is not None else {}
+    buf, job, setups = [], None, {}
+    for e in trace_iter:
+        ev = e.get("ev")
+        if ev == "job":
+            job, buf, setups = e["id"], [], {}
+        elif ev == "start_setup":
+            setups[e["at"]] = e
+        elif ev in ("recv", "start_out"):
+            buf.append(e)
+        elif ev in ("done", "hang"):
+            r = results.get(e["id"], {})
+            ok = ev == "done" and all(h.get("ok") for h in r.get("hosts", [])) and not r.get("hang")
+            j = jobs_by_id.get(job)
+            if j is None:
+                continue
+            mode = str(j.get("batch", "default"))
+            to = mode == "default" or mode.startswith("adaptive")
+            simple = {at: s for at, s in setups.items() if len(s["prev_blocks"]) == 1 and s["prev"]}
+            per = {at: [] for at in simple}
+            for x in buf:
+                if x["ev"] == "recv":
+                    at, _, pb = x["at"].partition("<")
+                    s = simple.get(at)
+                    if s is None or str(s["prev_blocks"][0]) != pb:
+                        continue
+                    per[at].append({"ev": "r", "from": x["from"], "els": [_wire_el(el) for el in (x.get("els") or [])]})
+                elif x["at"] in simple:
+                    per[x["at"]].append(dict(_wire_el(x["el"]), ev="o"))
+            for at in sorted(per):
+                if not per[at]:
+                    continue
+                yield {"ev": "begin", "job": job, "p": at, "senders": simple[at]["prev"], "to": bool(to)}
+                yield from per[at]
+                yield {"ev": "done", "ok": bool(ok)}
+                stats["segments"] = stats.get("segments", 0) + 1
